@@ -42,7 +42,7 @@ CHECKS = {
                  "defs, named and anonymous blocks are cached in arbitrary combination with cache_key expressions, cache_* arguments at Template / "
                  "<%page> / section level, buffered and filter flags. Every cached body is wrapped in sentinels and ticks a counter; the same text "
                  "compiled with cache_enabled=False gives the uncached output, which a key->content model (independent of mako.cache / codegen) "
-                 "turns into the expected output, the exact list of bodies that must execute, the backend call sequence and its kwargs (precedence, "
+                 "turns into the expected output (on Beaker also across a re-compilation under the same URI), the exact list of bodies that must execute, the backend call sequence and its kwargs (precedence, "
                  "int timeout, context when pass_context). Backends: recording dict CacheImpl (pass_context off/on), Beaker memory and file, "
                  "dogpile.cache. Four dedicated probes (module-id collision, Beaker set, invalidate-before-first-render, nested cached+buffered def) "
                  "carry their own control histories."),
@@ -67,7 +67,7 @@ CHECKS = {
         "level": "exploration",
         "technique": "exhaustive URI-spelling sweep + hypothesis URIs; containment oracle (realpath), secret-marker scan, sys audit hook on opens/creates",
         "text": ("Every URI of <=3 (quick) / <=4 (thorough) segments over 11 segment kinds x separator per gap (/ // \\) x 6 leading x 2 "
-                 "trailing spellings, plus 'climb', 'cancel' (names and '..' runs joined by different separators) and absolute-path families and hypothesis-drawn URIs of <=8 segments, is used directly "
+                 "trailing spellings, plus 'climb', 'cancel' (names and '..' runs joined by different separators), 'blank' (white space around climbing URIs) and absolute-path families and hypothesis-drawn URIs of <=8 segments, is used directly "
                  "(get_template / has_template) and from calling templates at depth 0..3 through <%include>, <%inherit>, <%namespace> "
                  "(name / import), get_namespace, get_template and include_file, under module_directory on / off / modulename_callable, one or two roots and 7 root "
                  "spellings. Either TemplateLookupException is raised or the returned template's realpath lies inside a configured root; "
@@ -89,7 +89,8 @@ CHECKS = {
                  "hypothesis-drawn preemption schedules are run, plus systematic sweeps: every single-preemption schedule of the modify-race / "
                  "failing-compile / vanishing-file scenarios and of first-use renders (cached defs with own arguments, relative include / "
                  "inherit / namespace from a sub-directory), every two-preemption schedule of the two-thread first-load and modify-race "
-                 "scenarios (strided in quick). Per call: complete template, version between call start and return, "
+                 "scenarios and of steady-state renders of one compiled template (decorated / buffered defs, capture, <%call>, loop) by two "
+                 "threads with their own contexts (strided in quick). Per call: complete template, version between call start and return, "
                  "documented exceptions only, single construction and shared object for simultaneous first requests, renders equal "
                  "solo output, bound held at quiescence, mutex released, lookup usable afterwards."),
         "note": ("Preemption only between Python lines of mako code, not inside C calls or between bytecodes; op lists are short; DFS is "
@@ -104,7 +105,10 @@ CHECKS = {
                  "one-line calling template, and - in batches - by child processes under PYTHONHASHSEED 0/1/2/12345 that compile afresh "
                  "and re-load the parent's module files (which must not be rewritten); CLI-safe documents are also run through "
                  "mako.cmd.cmdline (stdout, --output-encoding, --output-file). Every path must equal the P1 output; Template.source / "
-                 ".code / list_defs / has_def must be the template's own. A fixed sub-check exercises colliding URIs (known finding)."),
+                 ".code / list_defs / has_def must be the template's own. get_def(d).render*() under generated Template options (enable_loop, "
+                 "strict_undefined, default_filters, output encoding, error_handler) on five construction paths equals the def called from a "
+                 "one-line body; mako-render with --template-dir lists resolves include / inherit / namespace like the API. A fixed sub-check "
+                 "exercises colliding URIs (known finding)."),
         "note": ("P7 only with string variables; P8 not for buffered/decorated/*args defs; four hash seeds sampled. Trusted: P1 as the "
                  "reference path (its meaning is checked against independent references by C01-C07)."),
     },
